@@ -283,18 +283,51 @@ Definition cells_kept (t t' : table) (x : str) : Prop :=
 (* One step -- any addColumn or delColumn, accepted by the engine or not -- keeps class and
    table in step and keeps the cells of every column that is still there; it does not fail
    when the engine accepts the op. *)
-Theorem evo_step_ok : forall s op t, evo_wf s -> the_table s = Some t ->
+(* the steps the property speaks about: addColumn / delColumn with changeSchema=True, and steps of
+   either flavour that the class refuses before anything changes (name collisions, unknown columns) *)
+Definition in_scope (dc : decl) (op : evo_op) : bool := changes_schema op || op_refused dc op.
+Fixpoint ops_in_scope (s : evo_state) (ops : list evo_op) : bool :=
+  match ops with
+  | [] => true
+  | op :: r => in_scope (e_decl s) op && ops_in_scope (fst (evo_step s op)) r
+  end.
+
+(* a refused step changes nothing at all *)
+Lemma refused_unchanged : forall s op, op_refused (e_decl s) op = true -> evo_step s op = (s, true).
+Proof.
+  intros s op H. destruct op as [c|n|c|n]; cbn [op_refused] in H; unfold evo_step.
+  - rewrite H. reflexivity.
+  - unfold del_known in H. rewrite H. reflexivity.
+  - rewrite H. reflexivity.
+  - apply negb_true_iff in H. rewrite H. reflexivity.
+Qed.
+
+Theorem evo_step_ok : forall s op t, evo_wf s -> the_table s = Some t -> in_scope (e_decl s) op = true ->
   evo_wf (fst (evo_step s op))
   /\ (op_ok (e_decl s) op = true -> snd (evo_step s op) = false)
   /\ exists t', the_table (fst (evo_step s op)) = Some t'
        /\ forall x, In x (t_cols t) -> In x (t_cols t') -> cells_kept t t' x.
 Proof.
-  intros s op t W Ht. pose proof W as (t0 & F & C & O & SA).
+  intros s op t W Ht Sc. pose proof W as (t0 & F & C & O & SA).
   unfold the_table in Ht. rewrite F in Ht. inversion Ht; subst t0. clear Ht.
   assert (TE : table_exists (e_db s) (table_of (e_decl s)) = true) by (unfold table_exists; rewrite F; reflexivity).
-  destruct op as [c|n]; unfold evo_step.
+  assert (Refused : op_refused (e_decl s) op = true ->
+            evo_wf (fst (evo_step s op))
+            /\ (op_ok (e_decl s) op = true -> snd (evo_step s op) = false)
+            /\ exists t', the_table (fst (evo_step s op)) = Some t'
+                 /\ forall x, In x (t_cols t) -> In x (t_cols t') -> cells_kept t t' x).
+  { intro R. rewrite (refused_unchanged s op R). cbn [fst snd]. split; [exact W|]. split.
+    - intro Hok. exfalso. destruct op as [c|n|c|n]; cbn [op_ok op_refused] in *.
+      + rewrite R in Hok. rewrite andb_false_r in Hok. discriminate.
+      + rewrite Hok in R. discriminate.
+      + rewrite R in Hok. discriminate.
+      + rewrite Hok in R. discriminate.
+    - exists t. unfold the_table. split; [exact F|]. intros. reflexivity. }
+  destruct (op_refused (e_decl s) op) eqn:Ref; [exact (Refused eq_refl)|]. clear Refused.
+  unfold in_scope in Sc. rewrite Ref, orb_false_r in Sc.
+  destruct op as [c|n|c|n]; try discriminate Sc; cbn [op_refused] in Ref; unfold evo_step.
   - (* addColumn *)
-    cbn [op_ok]. rewrite F, TE. cbn [andb].
+    cbn [op_ok]. rewrite Ref. cbn [negb]. rewrite andb_true_r. rewrite F, TE. cbn [andb].
     destruct (sqlite_add_ok match t_rows t with [] => true | _ :: _ => false end c) eqn:OK.
     + cbn [fst snd].
       set (f := fun t1 : table => {| t_name := table_of (e_decl s);
@@ -319,11 +352,7 @@ Proof.
       * intro Hok. rewrite (add_ok_mono c _ Hok) in OK. discriminate.
       * exists t. unfold the_table. split; [exact F|]. intros. reflexivity.
   - (* delColumn *)
-    cbn [op_ok].
-    destruct (existsb (fun c => str_eqb (final_name c) n) (d_cols (e_decl s))) eqn:Known; cbn [negb].
-    2:{ (* unknown column: refused before anything changes *)
-        cbn [fst snd]. split; [exact W|]. split; [discriminate|].
-        exists t. unfold the_table. split; [exact F|]. intros. reflexivity. }
+    cbn [op_ok]. apply negb_false_iff in Ref. unfold del_known in Ref. rewrite Ref. cbn [negb].
     rewrite F. rewrite O.
     set (dc' := set_cols (e_decl s) (filter (fun c => negb (str_eqb (final_name c) n)) (d_cols (e_decl s)))).
     assert (Sub : forallb (fun c => mem_str c (t_cols t)) (class_cols dc') = true).
@@ -359,20 +388,21 @@ Fixpoint kept (x : str) (s : evo_state) (ops : list evo_op) : Prop :=
   end.
 
 (* any sequence of addColumn / delColumn, refused ones included *)
-Theorem evo_run_ok : forall ops s t, evo_wf s -> the_table s = Some t ->
+Theorem evo_run_ok : forall ops s t, evo_wf s -> the_table s = Some t -> ops_in_scope s ops = true ->
   evo_wf (fst (evo_run s ops))
   /\ (ops_ok s ops = true -> snd (evo_run s ops) = false)
   /\ exists t', the_table (fst (evo_run s ops)) = Some t'
        /\ t_cols t' = class_cols (e_decl (fst (evo_run s ops)))
        /\ forall x, In x (t_cols t) -> kept x s ops -> cells_kept t t' x.
 Proof.
-  induction ops as [|op ops IH]; intros s t W Ht.
+  induction ops as [|op ops IH]; intros s t W Ht Sc.
   - cbn. split; [exact W|]. split; [reflexivity|]. exists t. split; [exact Ht|].
     destruct W as (t0 & F & C & _ & _). unfold the_table in Ht. rewrite F in Ht. inversion Ht; subst.
     split; [exact C|]. intros. reflexivity.
-  - destruct (evo_step_ok s op t W Ht) as (W1 & E1 & t1 & T1 & K1).
+  - cbn [ops_in_scope] in Sc. apply andb_true_iff in Sc. destruct Sc as [Sc1 Sc2].
+    destruct (evo_step_ok s op t W Ht Sc1) as (W1 & E1 & t1 & T1 & K1).
     cbn [evo_run kept ops_ok]. destruct (evo_step s op) as [s1 e1] eqn:ES. cbn [fst snd] in *.
-    destruct (IH s1 t1 W1 T1) as (W2 & E2 & t2 & T2 & C2 & K2).
+    destruct (IH s1 t1 W1 T1 Sc2) as (W2 & E2 & t2 & T2 & C2 & K2).
     destruct (evo_run s1 ops) as [s2 e2] eqn:ER. cbn [fst snd] in *.
     split; [exact W2|]. split.
     + intro Hok. apply andb_true_iff in Hok. destruct Hok as [Hop Hops].
